@@ -6,9 +6,9 @@
   tables                         → preGate=<hexlist> guarded=<hexlist> unknown=<hexlist> allow=<name-hex>:<arm>|… default=<0|1> first=<0|1> names=<n> unreadable=<n> deferral=<absent|blocked-only|unknown> cliRule=<if-given|always|unknown> idStart=<n> subIds=<n|n…>
   names                          → `|`-joined hex of Gen.allCommandNames
   unreadable                     → what the translator could not read (`.` = nothing), entries separated by ` ;; `
-  configlines <cli-hexlist> <file-lines-hexlist> <given-values-hexlist> → code=<hex|none|unknown> spec=<hex|none>   the same with the raw LINES of the
-                                   configuration file, parsed by `Code.parseConfigLine` (unknown: Gen.configLineGrammar is not the modelled one — no
-                                   predictions for this server); `given` = the values the requirepass lines were written to carry (Spec)
+  configlines <cli-hexlist> <file-lines-hexlist> → code=<hex|none|error|unknown> spec=<hex|none|error>   the same with the raw LINES of the configuration
+                                   file: code = `Code.loadConfig` under the tree's grammar (unknown: not a modelled one — no predictions for this
+                                   server), spec = under the prescribed grammar `Grammar.spec`; error = the server does not start; none = it runs OPEN
   reset <password-hex|none>      → ok                         (empty dataset, no connections)
   config <cli-hexlist> <file-hexlist> → code=<hex|none> spec=<hex|none>   fresh server GIVEN these `--requirepass`/`--password` values and these
                                    `requirepass` lines (in order): the password the code ends up with (Gen.cliPasswordRule) and the one the
@@ -131,6 +131,16 @@ def unknownNames : List Bytes := Gen.preGateUnknownGuard.map fun p => nameBytes 
 def cliRule : Option CliRule :=
   if Gen.cliPasswordRule = "if-given" then some .ifGiven else if Gen.cliPasswordRule = "always" then some .always else none
 
+/-- the configuration-file grammar of the tree, if it is one of the modelled ones -/
+def treeGrammar : Option Grammar :=
+  let ws : Option Bool := if Gen.configLineGrammar = "rest-of-line-trimmed" then some false
+    else if Gen.configLineGrammar = "first-whitespace-bom" then some true else none
+  let uq : Option Bool := if Gen.requirepassValue = "verbatim" then some false
+    else if Gen.requirepassValue = "one-sdssplitargs-argument" then some true else none
+  match ws, uq with
+  | some w, some u => some ⟨w, w, u⟩
+  | _, _ => none
+
 def blind : Bool := !Gen.unreadable.isEmpty || cliRule.isNone || !Gen.passwordSourcesUnderstood
 
 def isUnknown : Req → Bool
@@ -152,21 +162,33 @@ def step (st : St) (ws : List String) : St × String :=
       s!" default={if Gen.gateDefaultRefuses then 1 else 0} first={if Gen.gateIsFirst then 1 else 0} names={Gen.allCommandNames.length}" ++
       s!" unreadable={Gen.unreadable.length + (if cliRule.isNone || !Gen.passwordSourcesUnderstood then 1 else 0)} deferral={(Gen.deferral.splitOn ":").head!}" ++
       s!" quitEndsBatch={if Gen.quitEndsBatch then 1 else 0} frameNameTrimmed={if Gen.frameNameTrimmed then 1 else 0}" ++
+      s!" configGrammar={Gen.configLineGrammar} requirepassValue={Gen.requirepassValue}" ++
       s!" cliRule={(Gen.cliPasswordRule.splitOn ":").head!} idStart={Gen.connIdStart} subIds=" ++
       (if Gen.substituteConnIds.isEmpty then "." else String.intercalate "|" (Gen.substituteConnIds.map toString)))
-  | ["configlines", cli, lines, given] =>
-    -- a fresh server started with these command-line passwords and a configuration file with these LINES; `given`: the values
-    -- the file's requirepass lines were written to carry (the Spec: a value the grammar can express is in force as written)
-    match parseHexList cli, parseHexList lines, parseHexList given with
-    | some cli, some lines, some given =>
-      let understood := Gen.configLineGrammar = "rest-of-line-trimmed"
-      let p := Code.effectivePassword (cliRule.getD .ifGiven) cli (Code.filePasswords false lines)
-      let sp := Spec.configuredPassword cli given
-      ({ s := { password := p, conns := [], store := KS.emptyStore, subs := [], replicas := [], monitors := [] }, specPassword := sp,
-         noPred := !understood },
-       (if !understood then "code=unknown" else match p with | some b => "code=" ++ toHex b | none => "code=none") ++ " " ++
-       (match sp with | some b => "spec=" ++ toHex b | none => "spec=none"))
-    | _, _, _ => (st, "bad-op")
+  | "configlines" :: cli :: lines :: _ =>
+    -- a fresh server started with these command-line passwords and a configuration file with these LINES.  code: what the tree's
+    -- grammar (Gen.configLineGrammar, Gen.requirepassValue) makes of them; spec: what the prescribed grammar (`Grammar.spec`) does
+    match parseHexList cli, parseHexList lines with
+    | some cli, some lines =>
+      let out (o : Outcome) : Option (Option Bytes) := match o with
+        | .startError => none
+        | .running fp => some (Code.effectivePassword (cliRule.getD .ifGiven) cli fp.toList)
+      let sout (o : Outcome) : Option (Option Bytes) := match o with
+        | .startError => none
+        | .running fp => some (Spec.configuredPassword cli fp.toList)
+      let shw (o : Option (Option Bytes)) : String := match o with
+        | none => "error" | some none => "none" | some (some b) => toHex b
+      let sp := sout (Code.loadConfig Grammar.spec lines)
+      match treeGrammar with
+      | some g =>
+        let p := out (Code.loadConfig g lines)
+        ({ s := { password := p.getD none, conns := [], store := KS.emptyStore, subs := [], replicas := [], monitors := [] },
+           specPassword := sp.getD none, noPred := false }, "code=" ++ shw p ++ " spec=" ++ shw sp)
+      | none =>
+        -- no prediction: the model state takes the Spec's password so that its connections start as the Spec expects them
+        ({ s := { password := sp.getD none, conns := [], store := KS.emptyStore, subs := [], replicas := [], monitors := [] },
+           specPassword := sp.getD none, noPred := true }, "code=unknown spec=" ++ shw sp)
+    | _, _ => (st, "bad-op")
   | ["names"] => (st, hexList (Gen.allCommandNames.map nameBytes))
   | ["unreadable"] => (st, if Gen.unreadable.isEmpty && Gen.preGateUnknownGuard.isEmpty then "." else
       String.intercalate " ;; " (Gen.unreadable ++ Gen.preGateUnknownGuard.map fun p => s!"preGate guard of {p.1}: {p.2}"))
